@@ -218,3 +218,8 @@ Qed.
 
 Theorem analyze_sound dom cs rho : feasible dom cs rho -> box_sound (analyze dom cs) rho.
 Proof. apply analyze_with_sound. Qed.
+
+(* every fact the rewrites read off the analyser is true of every feasible point *)
+Theorem relied_bounds_sound dom cs rho e v :
+  feasible dom cs rho -> ev rho e = Some v -> in_b (bounds_of (analyze dom cs) e) v.
+Proof. intros F H. apply (bounds_of_sound _ rho); [apply analyze_sound; exact F|exact H]. Qed.
